@@ -110,7 +110,7 @@ def make_field(rng, n, n_pol):
             s = s + rng.normal(0, 1, (shape[0], 1) if n_pol == 2 else ()) * np.exp(-((t - c) / w) ** 2) * np.exp(1j * rng.uniform(0, 6))
     else:
         s = np.exp(2j * np.pi * rng.integers(0, n) * t / n) * (1 + 0.3 * rng.normal(0, 1, shape))
-    s = s * 10 ** rng.uniform(-4, 0)
+    s = s * (10 ** rng.uniform(-4, 0) if rng.integers(8) else 10 ** float(rng.choice([-13, -9, 3])))
     dt_kind = int(rng.integers(8))
     if dt_kind == 0:
         s = np.real(s).copy()                              # real-dtype field
